@@ -3,9 +3,9 @@ package an
 import (
 	"fmt"
 	"go/ast"
-	"regexp"
 	"go/token"
 	"go/types"
+	"regexp"
 
 	"golang.org/x/tools/go/cfg"
 )
@@ -370,8 +370,8 @@ type ExecOpts struct {
 	Header      *cfg.Block          // region loop header: a back edge to it completes the path
 	IgnorePanic bool                // paths ending in a no-return call are not counted
 	MaxPaths    int
-	Watch       types.Object // optional: record the expression this local holds when a target executes
-	Record      bool         // record, per complete path, the ordered target hits (ExecResult.Traces)
+	Watch       types.Object          // optional: record the expression this local holds when a target executes
+	Record      bool                  // record, per complete path, the ordered target hits (ExecResult.Traces)
 	NoTrack     map[types.Object]bool // locals whose value is not tracked in the path store (they keep their name)
 	Unroll      int                   // how many times a path may re-enter a block (inner loops): 0 = back edges to inner headers end the path silently
 }
